@@ -24,15 +24,29 @@ pub open spec fn decode_all(p: Seq<u8>, i: int, be: bool) -> Seq<AArg>
 pub proof fn lemma_bytes_len(x: int)
     ensures le32_bytes(x).len() == 4, be32_bytes(x).len() == 4, be16_bytes(x).len() == 2, le16_bytes(x).len() == 2,
 {}
+pub proof fn lemma_u32_split(x: u32)
+    ensures x == (x % 256) + 256 * ((x / 256) % 256) + 65536 * ((x / 65536) % 256) + 16777216 * ((x / 16777216) % 256), x / 16777216 < 256,
+{
+    assert(x == (x % 256) + 256 * ((x / 256) % 256) + 65536 * ((x / 65536) % 256) + 16777216 * ((x / 16777216) % 256) && x / 16777216 < 256) by(bit_vector);
+}
+pub proof fn lemma_u16_split(x: u16)
+    ensures x == (x % 256) + 256 * ((x / 256) % 256), x / 256 < 256,
+{
+    assert(x == (x % 256) + 256 * ((x / 256) % 256) && x / 256 < 256) by(bit_vector);
+}
 pub proof fn lemma_u32_bytes(x: int)
     requires 0 <= x < 0x1_0000_0000,
     ensures le32(le32_bytes(x)[0], le32_bytes(x)[1], le32_bytes(x)[2], le32_bytes(x)[3]) == x,
         be32(be32_bytes(x)[0], be32_bytes(x)[1], be32_bytes(x)[2], be32_bytes(x)[3]) == x,
-{}
+{
+    lemma_u32_split(x as u32);
+}
 pub proof fn lemma_u16_bytes(x: int)
     requires 0 <= x < 0x1_0000,
     ensures be16(be16_bytes(x)[0], be16_bytes(x)[1]) == x, be16(le16_bytes(x)[1], le16_bytes(x)[0]) == x,
-{}
+{
+    lemma_u16_split(x as u16);
+}
 pub open spec fn enc_hdr_len(t: u32) -> int { if has_len_field(t) { 6 } else { 4 } }
 
 pub proof fn lemma_enc_len(a: AArg, be: bool)
